@@ -774,6 +774,10 @@ func (vf *VerifyFunc) yield(st *State) {
 }
 
 func (vf *VerifyFunc) chanOp(st *State, fr *Frame, ch *Val, op string, in ssa.Instruction) {
+	var sent *Val
+	if s, ok := in.(*ssa.Send); ok {
+		sent = st.get(fr, s.X)
+	}
 	// call-site style assertions on channel operations: `call send#k: assert e` / `call recv#k: assert e`
 	if vf.fc != nil && len(st.frames) == 1 {
 		ord := vf.eng.info(fr.fn).chanOrd[in]
@@ -784,12 +788,19 @@ func (vf *VerifyFunc) chanOp(st *State, fr *Frame, ch *Val, op string, in ssa.In
 			vf.usedCallClauses[c] = true
 			env := vf.loopEnv(fr)
 			env["ch"] = ch
+			if sent != nil {
+				env["val"] = sent // the value being sent
+			}
 			for gi, t := range vf.evalGoals(st, c, env, nil) {
 				st.check("assert", splitLbl(lbl(c, fmt.Sprintf("%s#%d", op, ord)), c, gi), c.Prop, c.Src, st.pos(in), t)
 			}
 		}
 	}
-	vf.yield(st)
+	if st.heldNow == 0 || vf.fc == nil || !vf.fc.Flags["interleaved"] {
+		// (with `flags interleaved` the relied-on state is taken to be protected by whatever lock this goroutine holds:
+		// monitor discipline, same rule as at calls)
+		vf.yield(st)
+	}
 	if vf.nopanic || vf.fc != nil && vf.fc.Flags["nilchan"] {
 		st.check("nilchan", fmt.Sprintf("%s#%d", op, vf.eng.info(fr.fn).chanOrd[in]), "", op+" on nil channel blocks forever", st.pos(in), not(eq(ch.Tm, "0")))
 	}
@@ -887,7 +898,7 @@ func (vf *VerifyFunc) selectOp(st *State, fr *Frame, x *ssa.Select) *Val {
 		lo = "(- 1)"
 	}
 	st.assume("(and (<= " + lo + " " + idx + ") (< " + idx + " " + fmt.Sprint(len(x.States)) + "))")
-	if x.Blocking {
+	if x.Blocking && (st.heldNow == 0 || vf.fc == nil || !vf.fc.Flags["interleaved"]) {
 		vf.yield(st)
 	}
 	if !x.Blocking && vf.fc != nil && vf.fc.Flags["delivers"] && len(st.frames) == 1 {
